@@ -25,7 +25,7 @@ from typing import (
 
 import kiwipy
 
-from . import lang, mixins, persistence, process_states, processes
+from . import futures, lang, mixins, persistence, process_states, processes
 from .utils import PID_TYPE, SAVED_STATE_TYPE
 
 __all__ = ['ToContext', 'WorkChain', 'WorkChainSpec', 'if_', 'return_', 'while_']
@@ -99,6 +99,10 @@ class Waiting(process_states.Waiting):
         key = self._awaiting.pop(awaitable)
         try:
             self.process.ctx[key] = awaitable.result()  # type: ignore
+        except asyncio.CancelledError:
+            # A cancelled awaitable counts as failed.  asyncio's ``CancelledError`` is not an ``Exception`` (raising it
+            # in the stepping task would cancel that task) so it is passed on as the regular ``CancelledError``
+            self._waiting_future.set_exception(futures.CancelledError(f"the awaitable for context key '{key}' was cancelled"))
         except Exception as exception:
             self._waiting_future.set_exception(exception)
         else:
